@@ -30,6 +30,22 @@ CHECKS = {
             "bounded: histories <= 3 (quick) / 4 (thorough) steps over 13 request kinds, 4 scenarios instantiating the "
             "abstract keys; trusted: TLC, CPython",
             "TLA+ model (TLC exhaustive) + all TLC-enumerated request histories replayed into the real parser cache"),
+    "C04": ("model_checking",
+            "Lang.tla (leftmost-derivation machine) explored exhaustively by TLC enumerates the language of each generated "
+            "grammar up to a length bound - an oracle independent of Fandango; words and near-misses (single-unit edits, decided "
+            "outside the language by the enumeration) are parsed by the real parser; every yielded tree with its input is judged "
+            "by TLC (Trace_Tree: FanIR.Valid, start symbol, yield = input via TreeValueRef, no helper symbols); inputs outside "
+            "the language must yield nothing",
+            "bounded: 40 (quick) / 600 (thorough) grammars (text, bytes, 8-bit fields), words <= 5 / 6 units; grammars with "
+            "empty-deriving bodies under open repetitions excluded (C06 finding); trusted: TLC",
+            "TLC-enumerated languages (derivation machine) replayed into the real parser + TLC trace validation of yielded trees"),
+    "C05": ("model_checking",
+            "(ii) every word of the TLC-enumerated language (Lang.tla) that is in the stated class (one derivation, regex leaves "
+            "maximal munch) must be accepted by the real parser; (i) every tree emitted by real search runs is serialised, parsed "
+            "back through Fandango.parse, checked with cli.utils.validate and the re-parsed trees are judged by TLC (Trace_Tree)",
+            "bounded: 40 / 500 grammars, words <= 5 / 6 units, 40 / 600 search runs; the class is computed per word from the "
+            "enumeration (narrower than the property's, never wider); CPython re trusted for maximal munch",
+            "TLC-enumerated languages replayed into the real parser + round trip of generated trees judged by TLC"),
     "C09": ("model_checking",
             "TreeValue.tla: reference value semantics (bits/bytes/text over the leaf sequence) and the implementation-shaped "
             "value object (append / flush / views) folded subtree by subtree; TLC checks that they agree for every leaf "
